@@ -253,8 +253,10 @@ class C18(Lab):
         volt = st.one_of(st.floats(-5, 10), st.floats(0, 5), st.floats(1e-5, 5.0), st.floats(allow_nan=False, allow_infinity=False, min_value=-1e6, max_value=1e6),
                          st.sampled_from([0.0, -0.0, 1e-5, 0.5, 4.5, 2.5]))
         vcc = st.one_of(st.just(5), st.just(5.0), st.floats(0.1, 100.0), st.just(0), st.just(0.0), st.just(3.3))
-        press = st.tuples(volt, vcc, st.one_of(st.none(), st.floats(0, 1e6), st.sampled_from([0.0, 60.0, 120.0, 200.0])), volt, st.booleans()).map(
-            lambda t: {"k": "pressure", "v": fx(t[0]), "vcc": t[1], "cal": None if t[2] is None else fx(t[2]), "vcal": fx(t[3]), "same": t[4]})
+        kp = st.one_of(st.floats(0, 1e6), st.sampled_from([0.0, 60.0, 120.0, 200.0]))
+        press = st.tuples(volt, vcc, st.one_of(st.none(), kp), volt, st.booleans(), st.lists(st.tuples(kp, st.floats(1e-5, 5.0)), max_size=3)).map(
+            lambda t: {"k": "pressure", "v": fx(t[0]), "vcc": t[1], "cal": None if t[2] is None else fx(t[2]), "vcal": fx(t[3]), "same": t[4],
+                       "recal": [[fx(a), fx(b)] for a, b in t[5]]})
         return st.one_of(triple, triple, chain, sonar, press)
 
     def enumerate_cases(self, tier):
@@ -387,6 +389,17 @@ class C18(Lab):
             if abs(p2 - known) > 1e-9 * abs(known) + 1e-9 or p3 != p2:
                 raise Violation("C18/pressure/calibrate", f"calibrate({known!r}) at {vc!r} V, then pressure reads {p2!r} (again: {p3!r}); case: {case}")
             nt = known > 0
+            # calibrating again (another known pressure, possibly another voltage) must hold just the same
+            for j, (k2, v2) in enumerate(case.get("recal", [])):
+                k2, v2 = unfx(k2), unfx(v2)
+                try:
+                    _Analog.voltage = v2
+                    s.calibrate(k2)
+                    p4 = s.pressure
+                except Exception as e:  # noqa
+                    raise exc_violation("C18", e, f"re-calibration {j}; case: {case}")
+                if abs(p4 - k2) > 1e-9 * abs(k2) + 1e-9:
+                    raise Violation("C18/pressure/recalibrate", f"calibration number {j + 2}: calibrate({k2!r}) at {v2!r} V, then pressure reads {p4!r}; case: {case}")
         return {"nontrivial": nt, "classes": ["pressure"] + (["calibrated"] if case["cal"] is not None else [])}
 
 
